@@ -1,5 +1,7 @@
 (* C19 adaptor: every element the semantic class-diagram writer (Model/UmlSem.v) draws lies in the domain of the
-   text-level theorem (Proofs/UmlBlobText.v, parse_top): well formed, brace free, no apostrophe in the printed bytes. *)
+   text-level theorem (Proofs/UmlBlobText.v, parse_top_q): well formed (wf_top at the top: the name of an association may
+   hold colons; wf_node below) and free of braces outside quoted texts (nbq_node).  The third part of the domain, quote_ok
+   of the printed row, is a conjunct of sdiagram_ok itself (inert free text may hold apostrophes). *)
 From Coq Require Import String Ascii List Bool Arith Lia.
 From KV Require Import Lib.Str Lib.ODict Model.Vpp Model.VppWriter Model.Uml Model.UmlBlob Model.UmlWriter Model.UmlSem
                        Proofs.VppStr Proofs.UmlBlobDefs Proofs.UmlBlobStruct Proofs.UmlBlobFields Proofs.UmlBlobText Proofs.UmlBlobRound.
@@ -21,53 +23,6 @@ Proof.
   cbn [forallb map] in *. apply andb_true_iff in Hl. destruct Hl as [H1 H2]. rewrite (H _ H1), (IH H2). reflexivity.
 Qed.
 
-(* ---------------------------------------------------------------- no apostrophe: a consequence of wf_node *)
-
-Definition sq_spec (x : wnode) : Prop := no_char SQ (print_node x) = true.
-
-Lemma nodes_sq : forall sep ns, no_char SQ sep = true -> Forall sq_spec ns -> no_char SQ (nodes_text sep ns) = true.
-Proof.
-  intros sep ns Hs. induction ns as [|x t IH]; intro H; [reflexivity|].
-  pose proof (Forall_inv H) as Hx. pose proof (Forall_inv_tail H) as Ht. unfold sq_spec in Hx.
-  destruct t as [|y t'].
-  - rewrite nodes_text_one. nc.
-  - rewrite nodes_text_more. specialize (IH Ht). nc.
-Qed.
-
-Lemma item_sq : forall it, wf_item it = true -> Forall sq_spec (kids_of it) -> no_char SQ (print_item it) = true.
-Proof.
-  intros it Hw H. destruct it as [ws k v|ws k o sep c ids|ws k o sep c ns|s|s]; try discriminate Hw;
-    cbn [wf_item seg_of seg_ok] in Hw; split_and.
-  - destruct (valok_cases v ltac:(assumption)) as [Hp _].
-    unfold keyok in *. split_and. rewrite wsok_allc, ?plain_allc in *. cbn [print_item]. nc.
-  - pose proof (refs_text_cls sep ids) as Hr. rewrite <- layok_allc in Hr. specialize (Hr ltac:(assumption) ltac:(assumption)).
-    unfold keyok in *. split_and. rewrite wsok_allc, ?plain_allc, ?layok_allc in *. cbn [print_item]. nc.
-  - cbn [kids_of] in H. rewrite print_children_eq.
-    unfold keyok in *. split_and. rewrite wsok_allc, ?plain_allc, ?layok_allc in *.
-    assert (Hs : no_char SQ sep = true) by nc.
-    pose proof (nodes_sq sep ns Hs H) as Hn. nc.
-Qed.
-
-Lemma items_sq : forall its, forallb wf_item its = true -> Forall sq_spec (children_of its) ->
-  no_char SQ (cat (map print_item its)) = true.
-Proof.
-  induction its as [|it r IH]; intros Hw H; [reflexivity|].
-  cbn [forallb] in Hw. apply andb_true_iff in Hw. destruct Hw as [Hw1 Hw2].
-  rewrite children_of_cons in H. apply Forall_app in H. destruct H as [K1 K2].
-  cbn [map cat]. rewrite no_char_app, (item_sq it Hw1 K1), (IH Hw2 K2). reflexivity.
-Qed.
-
-Lemma wf_sq : forall n, wf_node n = true -> no_char SQ (print_node n) = true.
-Proof.
-  induction n as [id nm ty its tl H] using wnode_ind2. intro Hw.
-  rewrite wf_node_eq in Hw. apply andb_true_iff in Hw. destruct Hw as [Hw Hi]. apply andb_true_iff in Hw. destruct Hw as [Hh Ht].
-  assert (Hc : Forall sq_spec (children_of its)).
-  { apply Forall_forall. intros x Hx. apply (proj1 (Forall_forall _ _) H x Hx).
-    exact (proj1 (Forall_forall _ _) (wf_items_children its Hi) x Hx). }
-  pose proof (items_sq its Hi Hc) as Hits. pose proof (head_pq _ _ _ Hh) as Hhd. rewrite wsok_allc in Ht.
-  rewrite print_node_eq. nc.
-Qed.
-
 (* ---------------------------------------------------------------- texts, identifiers *)
 
 Lemma nobrace_nc : forall s, no_char "{" s = true -> no_char "}" s = true -> nobrace s = true.
@@ -87,6 +42,15 @@ Lemma txt_textok : forall s, txt s = true -> textok s = true.
 Proof. intros s H. exact (proj1 (proj2 (txt_parts s H))). Qed.
 Lemma txt_nobrace : forall s, txt s = true -> nobrace s = true.
 Proof. intros s H. exact (proj2 (proj2 (txt_parts s H))). Qed.
+Lemma txt_vtextok : forall s, txt s = true -> vtextok s = true.
+Proof. intros s H. unfold txt in H. split_and. unfold vtextok. apply andb_true_iff. split; assumption. Qed.
+
+(* a value text (it may hold ','): plain, stripped, brace free *)
+Lemma vtxt_parts : forall s, vtxt s = true -> vtextok s = true /\ nobrace s = true.
+Proof.
+  intros s H. unfold vtxt in H. split_and. split; [|apply nobrace_nc; assumption].
+  unfold vtextok. apply andb_true_iff. split; assumption.
+Qed.
 
 Lemma ident_parts : forall s, ident s = true ->
   txt s = true /\ no_char ":" s = true /\ idok s = true /\ nobrace s = true.
@@ -111,20 +75,29 @@ Proof.
   replace (String.length v + 1 - 1) with (String.length v) by lia. apply substring_app_len.
 Qed.
 
-Lemma valok_q : forall v, txt v = true -> valok (q v) = true.
+Lemma valok_qt : forall v, vtextok v = true -> valok (q v) = true.
 Proof.
-  intros v H. unfold valok. rewrite unq_q, (txt_textok v H).
+  intros v H. unfold valok. rewrite unq_q, H.
   assert (E : prefixb dq (q v) = true) by (unfold q, dq; cbn [append prefixb]; rewrite Ascii.eqb_refl; reflexivity).
   rewrite E. unfold q. rewrite String.eqb_refl. apply orb_true_r.
 Qed.
 
+Lemma nobrace_qt : forall v, nobrace v = true -> nobrace (q v) = true.
+Proof. intros v H. unfold q, dq. rewrite !nobrace_app, H. reflexivity. Qed.
+
+Lemma valok_q : forall v, txt v = true -> valok (q v) = true.
+Proof. intros v H. apply valok_qt, txt_vtextok, H. Qed.
 Lemma nobrace_q : forall v, txt v = true -> nobrace (q v) = true.
-Proof. intros v H. unfold q, dq. rewrite !nobrace_app, (txt_nobrace v H). reflexivity. Qed.
+Proof. intros v H. apply nobrace_qt, txt_nobrace, H. Qed.
+Lemma valok_qv : forall v, vtxt v = true -> valok (q v) = true.
+Proof. intros v H. apply valok_qt. exact (proj1 (vtxt_parts v H)). Qed.
+Lemma nobrace_qv : forall v, vtxt v = true -> nobrace (q v) = true.
+Proof. intros v H. apply nobrace_qt. exact (proj2 (vtxt_parts v H)). Qed.
 
 Lemma code_good : forall c, code_ok (Some c) = true -> valok c = true /\ nobrace c = true.
 Proof.
   intros c H. cbn [code_ok] in H. split_and. split; [|apply txt_nobrace; assumption].
-  unfold valok. rewrite (txt_textok c) by assumption.
+  unfold valok. rewrite (txt_vtextok c) by assumption.
   match goal with H : negb (prefixb dq c) = true |- _ => rewrite H end. reflexivity.
 Qed.
 
@@ -132,7 +105,7 @@ Lemma noise_val_good : forall v, noise_val v = true -> valok v = true /\ nobrace
 Proof.
   intros v H. unfold noise_val in H. apply orb_true_iff in H. destruct H as [H|H].
   - split_and. split; [|apply txt_nobrace; assumption].
-    unfold valok. rewrite (txt_textok v) by assumption.
+    unfold valok. rewrite (txt_vtextok v) by assumption.
     match goal with H : negb (prefixb dq v) = true |- _ => rewrite H end. reflexivity.
   - remember (substring 1 (String.length v - 2) v) as u eqn:Eu. clear Eu. split_and.
     match goal with H : String.eqb v (q u) = true |- _ => apply String.eqb_eq in H; subst v end.
@@ -185,43 +158,46 @@ Proof.
     apply gid_join2; [apply ident_gid; exact Hx | apply IH; [discriminate | exact Hr]].
 Qed.
 
-(* ---------------------------------------------------------------- layout strings *)
+(* ---------------------------------------------------------------- layout strings: a line break (CR LF or LF) and tabs *)
 
 Fixpoint tabrep (n : nat) : string := match n with O => "" | S m => String TAB (tabrep m) end.
 
-Lemma tabs_eq : forall n, tabs n = crlf ++ tabrep n.
+Lemma tabsn_eq : forall nl n, tabsn nl n = nl ++ tabrep n.
+Proof. intros nl n. reflexivity. Qed.
+
+Lemma nl_allc : forall nl, nl_ok nl = true -> allc wsc nl = true.
 Proof.
-  intro n. reflexivity.
+  intros nl H. unfold nl_ok in H. apply orb_true_iff in H. destruct H as [H|H]; apply String.eqb_eq in H; subst nl; reflexivity.
 Qed.
 
-Lemma tabs_allc : forall n, allc wsc (tabs n) = true.
+Lemma tabsn_allc : forall nl n, nl_ok nl = true -> allc wsc (tabsn nl n) = true.
 Proof.
-  intro n. rewrite tabs_eq, allc_app. apply andb_true_iff. split; [reflexivity|].
+  intros nl n H. rewrite tabsn_eq, allc_app, (nl_allc nl H). cbn [andb].
   induction n as [|n IH]; [reflexivity|]. cbn [tabrep allc]. rewrite IH. reflexivity.
 Qed.
 
-Lemma tabs_ws : forall n, wsok (tabs n) = true.
-Proof. intro n. rewrite wsok_allc. apply tabs_allc. Qed.
+Lemma tabsn_ws : forall nl n, nl_ok nl = true -> wsok (tabsn nl n) = true.
+Proof. intros nl n H. rewrite wsok_allc. apply tabsn_allc, H. Qed.
 
-Lemma crlf_ws : wsok crlf = true.
-Proof. reflexivity. Qed.
+Lemma nl_ws : forall nl, nl_ok nl = true -> wsok nl = true.
+Proof. intros nl H. rewrite wsok_allc. apply nl_allc, H. Qed.
 
-Lemma open_lay : forall n, layok (list_open n) = true.
-Proof. intro n. pose proof (tabs_allc n) as H. unfold list_open. rewrite layok_allc. cls. Qed.
-Lemma sep_lay : forall n, layok (list_sep n) = true.
-Proof. intro n. pose proof (tabs_allc n) as H. unfold list_sep. rewrite layok_allc. cls. Qed.
-Lemma close_lay : forall n, layok (list_close n) = true.
-Proof. intro n. pose proof (tabs_allc n) as H. unfold list_close. rewrite layok_allc. cls. Qed.
+Lemma open_lay : forall nl n, nl_ok nl = true -> layok (list_open nl n) = true.
+Proof. intros nl n H0. pose proof (tabsn_allc nl n H0) as H. unfold list_open. rewrite layok_allc. cls. Qed.
+Lemma sep_lay : forall nl n, nl_ok nl = true -> layok (list_sep nl n) = true.
+Proof. intros nl n H0. pose proof (tabsn_allc nl n H0) as H. unfold list_sep. rewrite layok_allc. cls. Qed.
+Lemma close_lay : forall nl n, nl_ok nl = true -> layok (list_close nl n) = true.
+Proof. intros nl n H0. pose proof (tabsn_allc nl n H0) as H. unfold list_close. rewrite layok_allc. cls. Qed.
 
 (* ---------------------------------------------------------------- good items *)
 
-Definition good (it : witem) : Prop := wf_item it = true /\ nb_full it = true.
+Definition good (it : witem) : Prop := wf_item it = true /\ nbq_full it = true.
 
 Lemma field_good : forall ws k v, wsok ws = true -> keyok k = true -> nobrace k = true -> valok v = true -> nobrace v = true ->
   good (IField ws k v).
 Proof.
-  intros ws k v H1 H2 H3 H4 H5. unfold good, nb_full. cbn [wf_item seg_of seg_ok nb_item].
-  rewrite H1, H2, H3, H4, H5. split; reflexivity.
+  intros ws k v H1 H2 H3 H4 H5. unfold good, nbq_full. cbn [wf_item seg_of seg_ok nbq_item].
+  rewrite H1, H2, H3, H4, H5, orb_true_r. split; reflexivity.
 Qed.
 
 Lemma some_field_good : forall ws k v it, Some (IField ws k v) = Some it ->
@@ -232,23 +208,23 @@ Lemma refs_good : forall ws k o sep c ids, wsok ws = true -> keyok k = true -> n
   layok o = true -> layok sep = true -> layok c = true -> forallb idok ids = true -> forallb nobrace ids = true ->
   good (IRefs ws k o sep c ids).
 Proof.
-  intros ws k o sep c ids H1 H2 H3 H4 H5 H6 H7 H8. unfold good, nb_full. cbn [wf_item seg_of seg_ok nb_item].
+  intros ws k o sep c ids H1 H2 H3 H4 H5 H6 H7 H8. unfold good, nbq_full. cbn [wf_item seg_of seg_ok nbq_item].
   rewrite H1, H2, H3, H4, H5, H6, H7, H8. split; reflexivity.
 Qed.
 
 Lemma children_good : forall ws k o sep c ns, wsok ws = true -> keyok k = true -> nobrace k = true ->
-  layok o = true -> layok sep = true -> layok c = true -> forallb (fun x => wf_node x) ns = true -> forallb nb_node ns = true ->
+  layok o = true -> layok sep = true -> layok c = true -> forallb (fun x => wf_node x) ns = true -> forallb nbq_node ns = true ->
   good (IChildren ws k o sep c ns).
 Proof.
-  intros ws k o sep c ns H1 H2 H3 H4 H5 H6 H7 H8. unfold good, nb_full. cbn [wf_item seg_of seg_ok nb_item].
+  intros ws k o sep c ns H1 H2 H3 H4 H5 H6 H7 H8. unfold good, nbq_full. cbn [wf_item seg_of seg_ok nbq_item].
   rewrite H1, H2, H3, H4, H5, H6, H7, H8. split; reflexivity.
 Qed.
 
-Lemma text_field_good : forall ws k v it, wsok ws = true -> keyok k = true -> nobrace k = true -> txt v = true ->
+Lemma text_field_good : forall ws k v it, wsok ws = true -> keyok k = true -> nobrace k = true -> vtxt v = true ->
   text_field ws k v = Some it -> good it.
 Proof.
   intros ws k v it H1 H2 H3 H4 E. unfold text_field in E. destruct (String.eqb v ""); [discriminate E|].
-  inversion E. apply field_good; try assumption; [apply valok_q | apply nobrace_q]; assumption.
+  inversion E. apply field_good; try assumption; [apply valok_qv | apply nobrace_qv]; assumption.
 Qed.
 
 Lemma flag_field_good : forall ws k b it, wsok ws = true -> keyok k = true -> nobrace k = true ->
@@ -266,6 +242,24 @@ Proof.
   apply refs_good; try assumption; try reflexivity; cbn [forallb]; [rewrite G1 | rewrite G2]; reflexivity.
 Qed.
 
+(* documentation: a text, or free text  ws documentation_plain="...";  (in the domain by raw_ok of the piece) *)
+Lemma chop_app_semi : forall x, chop (x ++ ";") = x.
+Proof.
+  induction x as [|c x IH]; [reflexivity|]. cbn [append]. change (chop (String c (x ++ ";"))) with
+    (match x ++ ";" with EmptyString => "" | _ => String c (chop (x ++ ";")) end).
+  rewrite IH. destruct x; reflexivity.
+Qed.
+
+Lemma doc_field_good : forall ws d it, wsok ws = true -> doc_ok ws d = true -> doc_field ws d = Some it -> good it.
+Proof.
+  intros ws d it Hws Hd E. destruct d as [v|t]; cbn [doc_field doc_ok] in *.
+  - refine (text_field_good _ _ _ _ Hws _ _ Hd E); vm_compute; reflexivity.
+  - replace (ws ++ "documentation_plain=" ++ q t ++ ";") with ((ws ++ "documentation_plain=" ++ q t) ++ ";") in E
+      by (rewrite !sapp_assoc; reflexivity).
+    injection E as E'. subst it. split_and.
+    split; [|reflexivity]. cbn [wf_item]. rewrite chop_app_semi, String.eqb_refl. cbn [andb]. assumption.
+Qed.
+
 Lemma idents_good : forall ids, forallb ident ids = true -> forallb idok ids = true /\ forallb nobrace ids = true.
 Proof.
   intros ids H. split; revert H; apply forallb_imp; intros x Hx; destruct (ident_parts x Hx) as [_ [_ [H1 H2]]]; assumption.
@@ -274,51 +268,118 @@ Qed.
 (* ---------------------------------------------------------------- the items of a layout, element nodes *)
 
 Definition noise_ok (l : list slot) : bool :=
-  forallb (fun s => match s with SNoise k v => noise_key k && noise_val v | STag _ => true end) l.
+  forallb (fun s => match s with SNoise k v => noise_key k && noise_val v | _ => true end) l.
 
 Lemma layout_noise : forall f l, layout_ok f l = true -> noise_ok l = true.
 Proof. intros f l H. unfold layout_ok in H. split_and. assumption. Qed.
 
-Lemma items_of_good : forall ws f l, wsok ws = true -> noise_ok l = true ->
-  (forall t it, f t = Some it -> good it) ->
-  forallb wf_item (items_of ws f l) = true /\ forallb nb_full (items_of ws f l) = true.
+(* the inert properties: in the text domain as they are *)
+Definition inert_txt (l : list slot) : bool :=
+  forallb (fun s => match s with SInert it => item_text_ok it | _ => true end) l.
+
+Lemma inerts_txt : forall K l, inerts_ok K l = true -> inert_txt l = true.
 Proof.
-  intros ws f l Hws Hn Hf. induction l as [|s l IH]; [split; reflexivity|].
+  intros K l. unfold inerts_ok, inert_txt. apply forallb_imp. intros [k v|t|it] H; try reflexivity.
+  unfold inert_ok in H. split_and. assumption.
+Qed.
+
+Lemma item_text_good : forall it, item_text_ok it = true -> good it.
+Proof.
+  intros it H. unfold item_text_ok in H. cbv zeta in H. rewrite wf_node_eq, nbq_node_eq in H. cbn [forallb] in H.
+  split_and. split; assumption.
+Qed.
+
+Lemma items_of_good : forall ws f l, wsok ws = true -> noise_ok l = true -> inert_txt l = true ->
+  (forall t it, f t = Some it -> good it) ->
+  forallb wf_item (items_of ws f l) = true /\ forallb nbq_full (items_of ws f l) = true.
+Proof.
+  intros ws f l Hws Hn Hi Hf. induction l as [|s l IH]; [split; reflexivity|].
   unfold noise_ok in Hn. cbn [forallb] in Hn. apply andb_true_iff in Hn. destruct Hn as [Hs Hl].
-  destruct (IH Hl) as [IH1 IH2]. unfold items_of. cbn [flat_map]. fold (items_of ws f l). rewrite !forallb_app, IH1, IH2, !andb_true_r.
-  destruct s as [k v|t].
+  unfold inert_txt in Hi. cbn [forallb] in Hi. apply andb_true_iff in Hi. destruct Hi as [Hs' Hl'].
+  destruct (IH Hl Hl') as [IH1 IH2]. unfold items_of. cbn [flat_map]. fold (items_of ws f l). rewrite !forallb_app, IH1, IH2, !andb_true_r.
+  destruct s as [k v|t|it0].
   - apply andb_true_iff in Hs. destruct Hs as [Hk Hv].
     destruct (noise_key_good k Hk) as [K1 K2]. destruct (noise_val_good v Hv) as [V1 V2].
     destruct (field_good ws k v Hws K1 K2 V1 V2) as [G1 G2]. cbn [forallb]. rewrite G1, G2. split; reflexivity.
   - destruct (f t) as [it|] eqn:E; [|split; reflexivity].
     destruct (Hf t it E) as [G1 G2]. cbn [forallb]. rewrite G1, G2. split; reflexivity.
+  - destruct (item_text_good it0 Hs') as [G1 G2]. cbn [forallb]. rewrite G1, G2. split; reflexivity.
 Qed.
 
-Definition name_ok (nm : option string) : bool := match nm with Some s => txt s && no_char ":" s | None => true end.
+(* a header name: a text without ':' (UmlSem.name_ok demands this and that a given key does not occur in it) *)
+Definition hname_ok (nm : option string) : bool := match nm with Some s => txt s && no_char ":" s | None => true end.
 
-Lemma ident_name_ok : forall s, ident s = true -> name_ok (Some s) = true.
-Proof. intros s H. destruct (ident_parts s H) as [H1 [H2 _]]. cbn [name_ok]. rewrite H1, H2. reflexivity. Qed.
+Lemma name_ok_hname : forall a nm, UmlSem.name_ok a nm = true -> hname_ok nm = true.
+Proof.
+  intros a nm H. destruct nm as [n|]; [|reflexivity]. cbn [UmlSem.name_ok] in H. split_and.
+  cbn [hname_ok]. apply andb_true_iff. split; assumption.
+Qed.
 
-Lemma head_good : forall id nm ty, ident id = true -> name_ok nm = true -> ident ty = true ->
+Lemma ident_name_ok : forall s, ident s = true -> hname_ok (Some s) = true.
+Proof. intros s H. destruct (ident_parts s H) as [H1 [H2 _]]. cbn [hname_ok]. rewrite H1, H2. reflexivity. Qed.
+
+Lemma head_good : forall id nm ty, ident id = true -> hname_ok nm = true -> ident ty = true ->
   headok id nm ty = true /\ nobrace id = true /\ nobrace (name_text nm) = true /\ nobrace ty = true.
 Proof.
   intros id nm ty Hi Hn Ht.
   destruct (ident_parts id Hi) as [I1 [I2 [I3 I4]]]. destruct (ident_parts ty Ht) as [T1 [T2 [T3 T4]]].
   unfold idok in I3, T3. apply andb_true_iff in I3, T3. destruct I3 as [I3 I5]. destruct T3 as [T3 T5].
   assert (N : match nm with Some s => textok s && no_char ":" s | None => true end = true /\ nobrace (name_text nm) = true).
-  { destruct nm as [s|]; [|split; reflexivity]. cbn [name_ok] in Hn. apply andb_true_iff in Hn. destruct Hn as [N1 N2].
+  { destruct nm as [s|]; [|split; reflexivity]. cbn [hname_ok] in Hn. apply andb_true_iff in Hn. destruct Hn as [N1 N2].
     cbn [name_text]. rewrite (txt_textok s N1), N2, (txt_nobrace s N1). split; reflexivity. }
   destruct N as [N1 N2]. unfold headok. rewrite I3, I2, I5, N1, T3, T2, T5. repeat split; assumption || reflexivity.
 Qed.
 
+(* what is proved of every node the writer draws *)
+Definition ngood (n : wnode) : Prop := wf_node n = true /\ nbq_node n = true.
+
 Lemma elem_good : forall id nm ty ws f l tl,
-  ident id = true -> name_ok nm = true -> ident ty = true -> wsok ws = true -> wsok tl = true -> noise_ok l = true ->
+  ident id = true -> hname_ok nm = true -> ident ty = true -> wsok ws = true -> wsok tl = true ->
+  noise_ok l = true -> inert_txt l = true ->
   (forall t it, f t = Some it -> good it) ->
-  wf_node (WNode id nm ty (items_of ws f l) tl) = true /\ nb_node (WNode id nm ty (items_of ws f l) tl) = true.
+  ngood (WNode id nm ty (items_of ws f l) tl).
 Proof.
-  intros id nm ty ws f l tl Hi Hn Ht Hws Htl Hl Hf.
-  destruct (head_good id nm ty Hi Hn Ht) as [H1 [H2 [H3 H4]]]. destruct (items_of_good ws f l Hws Hl Hf) as [G1 G2].
-  rewrite wf_node_eq, nb_node_eq, H1, H2, H3, H4, Htl, G1, G2. split; reflexivity.
+  intros id nm ty ws f l tl Hi Hn Ht Hws Htl Hl Hin Hf.
+  destruct (head_good id nm ty Hi Hn Ht) as [H1 [H2 [H3 H4]]]. destruct (items_of_good ws f l Hws Hl Hin Hf) as [G1 G2].
+  split.
+  - rewrite wf_node_eq, H1, Htl, G1. reflexivity.
+  - rewrite nbq_node_eq, H2, H3, H4, G2. reflexivity.
+Qed.
+
+(* a top-level node (the blob of a row): its NAME may hold colons (wf_top); this is what wf_drawn demands *)
+Definition tgood (n : wnode) : Prop := wf_top n = true /\ nbq_node n = true.
+
+Lemma ngood_tgood : forall n, ngood n -> tgood n.
+Proof. intros n [G1 G2]. split; [exact (wf_node_wf_top n G1) | assumption]. Qed.
+
+Definition tname_ok (nm : option string) : bool := match nm with Some s => txt s | None => true end.
+
+Lemma elem_good_top : forall id nm ty ws f l tl,
+  ident id = true -> tname_ok nm = true -> ident ty = true -> wsok ws = true -> wsok tl = true ->
+  noise_ok l = true -> inert_txt l = true ->
+  (forall t it, f t = Some it -> good it) ->
+  tgood (WNode id nm ty (items_of ws f l) tl).
+Proof.
+  intros id nm ty ws f l tl Hi Hn Ht Hws Htl Hl Hin Hf.
+  destruct (elem_good id None ty ws f l tl Hi eq_refl Ht Hws Htl Hl Hin Hf) as [W _].
+  destruct (items_of_good ws f l Hws Hl Hin Hf) as [G1 G2].
+  destruct (ident_parts id Hi) as [I1 [I2 [I3 I4]]]. destruct (ident_parts ty Ht) as [T1 [T2 [T3 T4]]].
+  unfold idok in I3, T3. apply andb_true_iff in I3, T3. destruct I3 as [I3 I5]. destruct T3 as [T3 T5].
+  assert (N : match nm with Some s => textok s | None => true end = true /\ nobrace (name_text nm) = true).
+  { destruct nm as [s|]; [|split; reflexivity]. cbn [tname_ok] in Hn.
+    cbn [name_text]. rewrite (txt_textok s Hn), (txt_nobrace s Hn). split; reflexivity. }
+  destruct N as [N1 N2].
+  assert (HT : headok_top id nm ty = true) by (unfold headok_top; rewrite I3, I2, I5, N1, T3, T2, T5; reflexivity).
+  split.
+  - unfold wf_top. rewrite HT, W. reflexivity.
+  - rewrite nbq_node_eq, I4, N2, T4, G2. reflexivity.
+Qed.
+
+Lemma ngood_list : forall (A : Type) (P : A -> bool) (g : A -> wnode) l, (forall x, P x = true -> ngood (g x)) ->
+  forallb P l = true ->
+  forallb (fun x => wf_node x) (map g l) = true /\ forallb nbq_node (map g l) = true.
+Proof.
+  intros A P g l H Hl. split; revert Hl; apply forallb_map_imp; intros x Hx; destruct (H x Hx) as [G1 G2]; assumption.
 Qed.
 
 Lemma no_items_good : forall (t : tag) (it : witem), (fun _ : tag => @None witem) t = Some it -> good it.
@@ -339,11 +400,11 @@ Proof. intros D l H. destruct l as [|x r]; [reflexivity | exact (tpath_ident D _
 Ltac hyp := match goal with H : ?g |- ?g => exact H end.
 Ltac side :=
   lazymatch goal with
-  | |- wsok (tabs _) = true => apply tabs_ws
-  | |- wsok crlf = true => apply crlf_ws
-  | |- layok (list_open _) = true => apply open_lay
-  | |- layok (list_sep _) = true => apply sep_lay
-  | |- layok (list_close _) = true => apply close_lay
+  | |- wsok (tabsn _ _) = true => apply tabsn_ws; hyp
+  | |- wsok _ = true => first [hyp | apply nl_ws; hyp]
+  | |- layok (list_open _ _) = true => apply open_lay; hyp
+  | |- layok (list_sep _ _) = true => apply sep_lay; hyp
+  | |- layok (list_close _ _) = true => apply close_lay; hyp
   | |- valok (q _) = true => apply valok_q; hyp
   | |- nobrace (q _) = true => apply nobrace_q; hyp
   | |- keyok _ = true => first [hyp | vm_compute; reflexivity]
@@ -351,8 +412,8 @@ Ltac side :=
   | |- valok _ = true => first [hyp | vm_compute; reflexivity]
   | |- layok _ = true => first [hyp | vm_compute; reflexivity]
   | |- ident _ = true => first [hyp | vm_compute; reflexivity]
-  | |- name_ok None = true => reflexivity
-  | |- name_ok _ = true => unfold name_ok; hyp
+  | |- hname_ok None = true => reflexivity
+  | |- hname_ok _ = true => first [hyp | unfold hname_ok; hyp]
   | |- _ => hyp
   end.
 
@@ -360,7 +421,15 @@ Ltac item_fin E :=
   first [ refine (text_field_good _ _ _ _ _ _ _ _ E); side
         | refine (flag_field_good _ _ _ _ _ _ _ E); side
         | refine (ref_field_good _ _ _ _ _ _ _ _ E); side
+        | refine (doc_field_good _ _ _ _ _ E); side
         | refine (some_field_good _ _ _ _ E _ _ _ _ _); side ].
+
+(* the two layout facts of an element: its noise and its inert properties *)
+Ltac lay :=
+  lazymatch goal with
+  | |- noise_ok _ = true => eapply layout_noise; eassumption
+  | |- inert_txt _ = true => eapply inerts_txt; eassumption
+  end.
 
 Lemma param_item_good : forall D p, param_ok D p = true -> forall t it, param_item p t = Some it -> good it.
 Proof.
@@ -373,20 +442,16 @@ Proof.
   - destruct (sp_dir p) as [[|]|]; [item_fin E | item_fin E | discriminate E].
 Qed.
 
-Lemma param_good : forall D p, param_ok D p = true ->
-  wf_node (tree_of_param p) = true /\ nb_node (tree_of_param p) = true.
+Lemma param_good : forall D p, param_ok D p = true -> ngood (tree_of_param p).
 Proof.
   intros D p H. pose proof (param_item_good D p H) as Hf. unfold param_ok in H. split_and.
-  unfold tree_of_param. apply elem_good; try side.
-  - cbn [name_ok]. rewrite andb_true_iff. split; assumption.
-  - eapply layout_noise; eassumption.
+  unfold tree_of_param. apply elem_good; try side; try lay.
+  cbn [hname_ok]. rewrite andb_true_iff. split; assumption.
 Qed.
 
 Lemma params_good : forall D ps, forallb (param_ok D) ps = true ->
-  forallb (fun x => wf_node x) (map tree_of_param ps) = true /\ forallb nb_node (map tree_of_param ps) = true.
-Proof.
-  intros D ps H. split; revert H; apply forallb_map_imp; intros p Hp; destruct (param_good D p Hp); assumption.
-Qed.
+  forallb (fun x => wf_node x) (map tree_of_param ps) = true /\ forallb nbq_node (map tree_of_param ps) = true.
+Proof. intros D ps. apply ngood_list. exact (param_good D). Qed.
 
 Lemma op_item_good : forall D o, op_ok D o = true -> forall t it, op_item o t = Some it -> good it.
 Proof.
@@ -400,12 +465,11 @@ Proof.
   - destruct (so_params o) as [|p ps]; [discriminate E|]. inversion E. apply children_good; side.
 Qed.
 
-Lemma op_good : forall D o, op_ok D o = true -> wf_node (tree_of_op o) = true /\ nb_node (tree_of_op o) = true.
+Lemma op_good : forall D o, op_ok D o = true -> ngood (tree_of_op o).
 Proof.
   intros D o H. pose proof (op_item_good D o H) as Hf. unfold op_ok in H. split_and.
-  unfold tree_of_op. apply elem_good; try side.
-  - apply ident_name_ok. assumption.
-  - eapply layout_noise; eassumption.
+  unfold tree_of_op. apply elem_good; try side; try lay.
+  apply ident_name_ok. assumption.
 Qed.
 
 Lemma attr_item_good : forall D a, attr_ok D a = true -> forall t it, attr_item a t = Some it -> good it.
@@ -418,31 +482,26 @@ Proof.
   - destruct (sa_static a); [item_fin E | discriminate E].
 Qed.
 
-Lemma attr_good : forall D a, attr_ok D a = true -> wf_node (tree_of_attr a) = true /\ nb_node (tree_of_attr a) = true.
+Lemma attr_good : forall D a, attr_ok D a = true -> ngood (tree_of_attr a).
 Proof.
   intros D a H. pose proof (attr_item_good D a H) as Hf. unfold attr_ok in H. split_and.
-  unfold tree_of_attr. apply elem_good; try side.
-  - cbn [name_ok]. rewrite andb_true_iff. split; assumption.
-  - eapply layout_noise; eassumption.
+  unfold tree_of_attr. apply elem_good; try side; try lay.
+  cbn [hname_ok]. rewrite andb_true_iff. split; assumption.
 Qed.
 
-Lemma member_good : forall D m, member_ok D m = true ->
-  wf_node (tree_of_member m) = true /\ nb_node (tree_of_member m) = true.
+Lemma member_good : forall D m, member_ok D m = true -> ngood (tree_of_member m).
 Proof.
-  intros D m H. destruct m as [o|a|id name noise]; cbn [member_ok tree_of_member] in *.
+  intros D m H. destruct m as [o|a|id name nl noise]; cbn [member_ok tree_of_member] in *.
   - exact (op_good D o H).
   - exact (attr_good D a H).
-  - split_and. apply elem_good; try side.
+  - split_and. apply elem_good; try side; try lay.
     + apply ident_name_ok. assumption.
-    + eapply layout_noise; eassumption.
     + exact no_items_good.
 Qed.
 
 Lemma members_good : forall D ms, forallb (member_ok D) ms = true ->
-  forallb (fun x => wf_node x) (map tree_of_member ms) = true /\ forallb nb_node (map tree_of_member ms) = true.
-Proof.
-  intros D ms H. split; revert H; apply forallb_map_imp; intros m Hm; destruct (member_good D m Hm); assumption.
-Qed.
+  forallb (fun x => wf_node x) (map tree_of_member ms) = true /\ forallb nbq_node (map tree_of_member ms) = true.
+Proof. intros D ms. apply ngood_list. exact (member_good D). Qed.
 
 Lemma class_item_good : forall D c, class_ok D c = true -> forall t it, class_item c t = Some it -> good it.
 Proof.
@@ -457,12 +516,11 @@ Proof.
   - destruct (sc_stereos c) as [|i r]; [discriminate E|]. inversion E. apply refs_good; side.
 Qed.
 
-Lemma class_good : forall D c, class_ok D c = true -> wf_node (tree_of_class c) = true /\ nb_node (tree_of_class c) = true.
+Lemma class_good : forall D c, class_ok D c = true -> ngood (tree_of_class c).
 Proof.
   intros D c H. pose proof (class_item_good D c H) as Hf. unfold class_ok in H. split_and.
-  unfold tree_of_class. apply elem_good; try side.
-  - cbn [name_ok]. rewrite andb_true_iff. split; assumption.
-  - eapply layout_noise; eassumption.
+  unfold tree_of_class. apply elem_good; try side; try lay.
+  cbn [hname_ok]. rewrite andb_true_iff. split; assumption.
 Qed.
 
 Lemma package_item_good : forall D p, package_ok D p = true -> forall t it, package_item p t = Some it -> good it.
@@ -477,12 +535,11 @@ Proof.
   destruct (sk_paths p) as [|x r]; [discriminate E|]. inversion E. apply refs_good; side.
 Qed.
 
-Lemma package_good : forall D p, package_ok D p = true -> wf_node (tree_of_package p) = true /\ nb_node (tree_of_package p) = true.
+Lemma package_good : forall D p, package_ok D p = true -> ngood (tree_of_package p).
 Proof.
   intros D p H. pose proof (package_item_good D p H) as Hf. unfold package_ok in H. split_and.
-  unfold tree_of_package. apply elem_good; try side.
-  - apply ident_name_ok. assumption.
-  - eapply layout_noise; eassumption.
+  unfold tree_of_package. apply elem_good; try side; try lay.
+  apply ident_name_ok. assumption.
 Qed.
 
 Lemma inh_item_good : forall D i, inh_ok D i = true -> forall t it, inh_item i t = Some it -> good it.
@@ -493,48 +550,87 @@ Proof.
   destruct t; cbn [inh_item] in E; try discriminate E; item_fin E.
 Qed.
 
-Lemma inh_good : forall D i, inh_ok D i = true -> wf_node (tree_of_inh i) = true /\ nb_node (tree_of_inh i) = true.
+Lemma inh_good : forall D i, inh_ok D i = true -> ngood (tree_of_inh i).
 Proof.
   intros D i H. pose proof (inh_item_good D i H) as Hf. unfold inh_ok in H. split_and.
-  unfold tree_of_inh. apply elem_good; try side.
-  - destruct (si_real i); vm_compute; reflexivity.
-  - eapply layout_noise; eassumption.
+  unfold tree_of_inh. apply elem_good; try side; try lay.
+  destruct (si_real i); vm_compute; reflexivity.
+Qed.
+
+(* ---------------------------------------------------------------- associations: the two ends, the association *)
+
+Lemma end_item_good : forall D from e, end_ok D from e = true -> forall t it, end_item from e t = Some it -> good it.
+Proof.
+  intros D from e H t it E. unfold end_ok in H. split_and.
+  assert (Hcls : forallb ident (se_class e) = true) by (apply (path_ident D); assumption).
+  destruct t; cbn [end_item] in E; try discriminate E; try (item_fin E).
+  - destruct (se_vis e) as [c|]; [|discriminate E].
+    destruct (code_good c ltac:(assumption)) as [C1 C2]. item_fin E.
+  - destruct from; item_fin E.
+  - destruct (se_agg e) as [c|]; [|discriminate E].
+    destruct (code_good c ltac:(assumption)) as [C1 C2]. item_fin E.
+Qed.
+
+Lemma end_good : forall D from e, end_ok D from e = true -> ngood (tree_of_end from e).
+Proof.
+  intros D from e H. pose proof (end_item_good D from e H) as Hf. unfold end_ok in H. split_and.
+  unfold tree_of_end. apply elem_good; try side; try lay.
+  eapply name_ok_hname; eassumption.
+Qed.
+
+Lemma assoc_item_good : forall D x, assoc_ok D x = true -> forall t it, assoc_item x t = Some it -> good it.
+Proof.
+  intros D x H t it E. unfold assoc_ok in H. split_and.
+  destruct (end_good D true (sx_from x) ltac:(assumption)) as [F1 F2].
+  destruct (end_good D false (sx_to x) ltac:(assumption)) as [T1 T2].
+  destruct t; cbn [assoc_item] in E; try discriminate E; try (item_fin E).
+  - inversion E. apply children_good; try side; cbn [forallb]; [rewrite F1 | rewrite F2]; reflexivity.
+  - inversion E. apply children_good; try side; cbn [forallb]; [rewrite T1 | rewrite T2]; reflexivity.
+Qed.
+
+(* the NAME of an association may hold colons: a top-level node only *)
+Lemma assoc_good : forall D x, assoc_ok D x = true -> tgood (tree_of_assoc x).
+Proof.
+  intros D x H. pose proof (assoc_item_good D x H) as Hf. unfold assoc_ok in H. split_and.
+  unfold tree_of_assoc. apply elem_good_top; try side; try lay.
+  destruct (sx_name x) as [n|]; [|reflexivity]. split_and. cbn [tname_ok]. assumption.
 Qed.
 
 (* ---------------------------------------------------------------- the diagram *)
 
+(* the domain of a drawn element, without the quote_ok conjunct *)
 Definition shape_ok (S : sdiagram) (se : string * selem) : bool :=
   match snd se with
   | EClass c => class_ok S c
   | EPackage p => package_ok S p
   | EInh i => inh_ok S i
-  | EOther id nm ty _ noise =>
-      ident id && match nm with Some n => txt n && no_char ":" n | None => true end && ident ty
+  | EAssoc x => assoc_ok S x
+  | EOther id nm ty _ nl noise =>
+      nl_ok nl && ident id && match nm with Some n => txt n && no_char ":" n | None => true end && ident ty
       && negb (existsb (String.eqb ty) ["Class"; "Package"; "Association"; "Realization"; "Generalization"])
-      && layout_ok (fun _ => None) noise
+      && layout_ok (fun _ => None) noise && inerts_ok KNone noise
   end.
 
-Lemma shape_good : forall D se, shape_ok D se = true ->
-  wf_node (we_node (welem_of (snd se))) = true /\ nb_node (we_node (welem_of (snd se))) = true.
+Lemma shape_good : forall D se, shape_ok D se = true -> tgood (we_node (welem_of (snd se))).
 Proof.
   intros D [sid e] H. unfold shape_ok in H. cbn [snd] in *.
-  destruct e as [c|p|i|id nm ty par noise]; cbn [welem_of we_node].
-  - exact (class_good D c H).
-  - exact (package_good D p H).
-  - exact (inh_good D i H).
-  - split_and. apply elem_good; try side.
-    + eapply layout_noise; eassumption.
-    + exact no_items_good.
+  destruct e as [c|p|i|x|id nm ty par nl noise]; cbn [welem_of we_node].
+  - exact (ngood_tgood _ (class_good D c H)).
+  - exact (ngood_tgood _ (package_good D p H)).
+  - exact (ngood_tgood _ (inh_good D i H)).
+  - exact (assoc_good D x H).
+  - apply ngood_tgood. split_and. apply elem_good; try side; try lay.
+    exact no_items_good.
 Qed.
 
 (* the referenced elements (not part of wf_drawn) are in the domain as well *)
 Lemma ref_good : forall r,
-  ident (sr_id r) && txt (sr_name r) && no_char ":" (sr_name r) && ident (sr_type r) && layout_ok (fun _ => None) (sr_noise r) = true ->
-  wf_node (we_node (welem_of_ref r)) = true /\ nb_node (we_node (welem_of_ref r)) = true.
+  nl_ok (sr_nl r) && ident (sr_id r) && txt (sr_name r) && no_char ":" (sr_name r) && ident (sr_type r)
+  && layout_ok (fun _ => None) (sr_noise r) && inerts_ok KNone (sr_noise r) = true ->
+  ngood (we_node (welem_of_ref r)).
 Proof.
-  intros r H. split_and. unfold welem_of_ref. cbn [we_node]. apply elem_good; try side.
-  - cbn [name_ok]. rewrite andb_true_iff. split; assumption.
-  - eapply layout_noise; eassumption.
+  intros r H. split_and. unfold welem_of_ref. cbn [we_node]. apply elem_good; try side; try lay.
+  - cbn [hname_ok]. rewrite andb_true_iff. split; assumption.
   - exact no_items_good.
 Qed.
 
@@ -542,9 +638,9 @@ Lemma tree_of_wf_drawn : forall S : sdiagram, sdiagram_ok S = true -> wf_drawn (
 Proof.
   intros S H. unfold sdiagram_ok in H. split_and.
   match goal with H : forallb _ (sd_shapes S) = true |- _ => rename H into Hs end.
-  change (forallb (shape_ok S) (sd_shapes S) = true) in Hs.
   unfold wf_drawn, tree_of. cbn [wd_drawn]. revert Hs. apply forallb_map_imp. intros se Hse. cbn [snd].
-  destruct (shape_good S se Hse) as [G1 G2]. rewrite G1, G2, (wf_sq _ G1). reflexivity.
+  apply andb_true_iff in Hse. destruct Hse as [Hse Hq]. change (shape_ok S se = true) in Hse.
+  destruct (shape_good S se Hse) as [G1 G2]. rewrite G1, G2, Hq. reflexivity.
 Qed.
 
 Print Assumptions tree_of_wf_drawn.
